@@ -135,6 +135,11 @@ func StreamMutationsForVersion(w io.Writer, versionID, dataID dvid.UUID) error {
 		if err == io.EOF {
 			break
 		}
+		if err != nil {
+			// a record torn by a crash ends the log: everything before it was completely written
+			dvid.Errorf("mutation log for data %s, version %s ends in an unreadable record: %v\n", dataID, versionID, err)
+			break
+		}
 		if numMutations != 0 {
 			if _, err := w.Write([]byte(",")); err != nil {
 				return err
@@ -206,6 +211,11 @@ func sendVersionMutations(ch chan []byte, uuid, dataID dvid.UUID) (numMutations 
 	for {
 		typeID, jsondata, err := r.Next()
 		if err == io.EOF {
+			break
+		}
+		if err != nil {
+			// a record torn by a crash ends the log: everything before it was completely written
+			dvid.Errorf("mutation log for data %s, version %s ends in an unreadable record: %v\n", dataID, uuid, err)
 			break
 		}
 		if typeID != jsonMsgTypeID {
